@@ -383,9 +383,16 @@ def enumerate_cases(tier, seed):
     wfiles = (["1AJJ.pdb", "1BX8.pdb", "cterm_hid.pdb"] if tier == "quick"
               else None)
     cases += s3.window_cases("AMBER", wfiles)
+    # spatial neighbourhoods of every residue (real hydrogen-bond networks)
+    small = ["1AJJ.pdb", "1BX8.pdb", "cterm_hid.pdb"]
+    cases += s3.hood_cases("AMBER", small if tier == "quick" else None)
     if tier == "thorough":
         cases += s3.window_cases("PARSE", ["1AJJ.pdb", "1BX8.pdb",
                                            "cterm_hid.pdb"], opt="noopt")
+        cases += s3.hood_cases("AMBER", small, radius=7.0)
+        cases += s3.hood_cases("PARSE", small + ["1K1I.pdb"], oxt=True)
+        for opt in ("noopt", "nodebump", "nodebump_noopt"):
+            cases += s3.hood_cases("AMBER", small, opt=opt, oxt=True)
     if tier == "quick":
         P = s3.PARTNERS[seed % len(s3.PARTNERS)]
         flip_hosts = ["ASN", "GLN", "HIS", "SER", "ASP", "TYR"]
